@@ -1,5 +1,7 @@
 package main
 
+import "strconv"
+
 // The registry of property checks: which harnesses decide which property, with which bounds.
 
 var checks = map[string]Check{}
@@ -57,4 +59,18 @@ func init() {
 			Reach: []string{"loop-returned", "second-parse", "next-commands-done"},
 			Bounds: "as quick, plus 1 and 2 stripes, gets of 1-3 keys, fault at handler call 0..3"}},
 	})
+
+	ring := func(n, seed int64, bounds string) Job {
+		return Job{Pkg: "./handlers/memcached/cluster", Func: "ZZRing", Setup: "ZZRingSetup", Name: "ring-n" + itoa(n) + "-s" + itoa(seed),
+			Params: map[string]int64{"n": n, "seed": seed, "perms": 6}, Reach: []string{"lookup"}, Bounds: bounds}
+	}
+	rb := "every 32-bit ring location (symbolic), one path per ring interval; node set of the given size with concrete labels; all permutations for n<=4, reversal+rotation+4 seeded shuffles above; every single-node removal"
+	reg(Check{ID: "C19", Level: "model_checking", Assumptions: append([]string{
+		"A3: md5.Sum executed natively on concrete labels; ring points of the enumerated label set pairwise distinct (asserted)",
+		"node label sets are enumerated (sizes and seed below), weights are 1; Hash(key)=Bucket(first 4 bytes of md5(key)) is covered through the ring location being an arbitrary 32-bit value",
+	}, stdAssumptions...),
+		Quick:    []Job{ring(1, 0, rb), ring(2, 0, rb), ring(3, 0, rb), ring(4, 1, rb), ring(8, 2, rb)},
+		Thorough: []Job{ring(3, 7, rb), ring(5, 3, rb), ring(16, 4, rb), ring(32, 5, rb)}})
 }
+
+func itoa(n int64) string { return strconv.FormatInt(n, 10) }
